@@ -44,6 +44,8 @@ BOUND = {
     "quick": "library + xls2xform_convert: all stderr scripts of <=2 lines over a 7-line alphabet x exit {0,1,2,255} + killed/absent/corrupt; CLI: 7 representative scripts x 10 entry variants x 3 forms x 2 pre-existing states; single I/O faults on both library paths",
     "thorough": "same with scripts of <=3 lines for the library paths and 16 scripts for the CLI",
 }
+# as-built additions to the bound (kept next to BOUND so that the evidence reports them)
+BOUND = {k: v + "; plus: " + 'validator output that is not valid UTF-8 (3 byte scripts x exit {0,1})' for k, v in BOUND.items()}
 
 LINES = [
     "Something broke the parser.",
